@@ -112,7 +112,7 @@ def func_case(emit, cid, rng, sample):
     n = int(rng.integers(6, 20))
     X = C.make_X(rng, n, p, "gauss")
     y = rng.standard_normal(n) + 2.0
-    groups = C.make_groups(rng, p, style=str(rng.choice(["contig", "perm"])))
+    groups = C.make_groups(rng, p, style=str(rng.choice(["contig", "perm", "trap"])))
     gw = rng.uniform(0.3, 2, size=len(groups))
     zero_w = rng.random() < 0.5 and len(groups) > 1
     if zero_w:
@@ -189,7 +189,7 @@ def solve_case(emit, cid, target, rng, sample):
     tol = 1e-10
     eps_above = float(rng.choice([1e-6, 1e-4, 1e-2, 4.0]))       # "at or above": also far above
     eps_below = float(rng.choice([1e-3, 1e-2, 1e-1]))
-    groups = C.make_groups(rng, p, style=str(rng.choice(["contig", "perm"])))
+    groups = C.make_groups(rng, p, style=str(rng.choice(["contig", "perm", "trap"])))
     wts = rng.uniform(0.3, 2.5, size=p)
     zero_w = rng.random() < 0.5 and p > 2
     if zero_w:
